@@ -200,7 +200,7 @@ check("C11", "an SSTable reads back exactly what was written", [
     ob("VerifC11_FlipOneByte", "pkg/sstable", "one byte at any position of a finished table (data block, restart array, trailer, bloom section, index block, footer) replaced by a symbolic different value: open/iterate/seek/get fail or yield only written entries, ascending; no panic",
        "tables of 1-2 entries; every file position except the interior of the bloom bit array (5 representatives); every replacement value", "tables of 1-3 entries", q={"budget_s": 400}, t={"budget_s": 900}),
     ob("VerifC11_BloomNoFalseNegative", "pkg/bloom_filter", "real Add/Contains/SaveToFile/LoadBloomFilter on a 20-bit filter: no false negative", "<=2 keys, 20 bits, 7 hash functions"),
-], [SIMFS, CLOCK, HASH, BLOOM, LOG, TIERA], ["keys > 64 KiB (uint16 length field)", ">2 blocks", "multi-byte damage"])
+], [SIMFS, CLOCK, HASH, BLOOM, LOG, TIERA], ["keys > 64 KiB (uint16 length field)", "more than 34 data blocks; tables whose blocks each hold many entries beyond the two-restart-interval harness (a seeded change that needs 32 blocks of ~64 entries is not reported, DESIGN 12)", "multi-byte damage"])
 
 check("C12", "compaction preserves content; deleted keys stay deleted", [
     ob("VerifC12_CompactPreservesView", "pkg/compaction", "2-3 real SSTables with symbolic levels and tombstone placement, one compaction cycle, merged view before = after", "2-3 files, 2 keys, levels 0-1, file numbering with or against creation order, values symbolic 1-byte, or all empty with 2 files (12 960 paths)", "all-empty values also with 3 files", q={"budget_s": 700}, t={"budget_s": 1500}),
